@@ -114,6 +114,8 @@ def scenarios(ctx):
         if rng.random() < 0.3:
             w["gt_desc"] = True                            # unphased heterozygous genotypes written 1/0
         if rng.random() < 0.15:
+            w["first_at_zero"] = True                      # the first site on the first base of its contig
+        if rng.random() < 0.15:
             w["phase_vcf"] = True                          # a phased VCF (true haplotypes, blocks) as an additional phase input
         scs.append({"world": w})
     return scs
